@@ -113,8 +113,22 @@ def _run_vh_chunk(args):
         raise ToolError(f"vh {cmd} failed with status {p.returncode}: {p.stderr[-2000:]}")
 
 
+TIER = {"tier": "quick"}
+
+
+def tscale(timeout):
+    """Tool timeouts are about a stuck tool, not a verdict: they stretch with the tier and the load of the machine
+    (other checks running beside this one), so that a busy machine yields a slow run, never exit 2."""
+    try:
+        load = os.getloadavg()[0] / 16.0
+    except OSError:
+        load = 1.0
+    return int(timeout * max(1.0, min(load, 6.0)) * (3 if TIER["tier"] == "thorough" else 1))
+
+
 def run_jobs(jobs, wd, nproc=None, timeout=900, cmd="jobs"):
     """Run jobs on `nproc` harness processes. Returns (results by id, list of trace files)."""
+    timeout = tscale(timeout)
     nproc = nproc or NPROC
     nproc = max(1, min(nproc, len(jobs)))
     chunks = [[] for _ in range(nproc)]
@@ -161,6 +175,7 @@ def _java(extra_props, xmx="3g", xss="512m"):
 def tlc_trace(spec, trace_file, wd, tag, cfg=None, timeout=600, env_extra=None):
     """Validate one projected trace file against a trace specification.
     Returns (violation records, consumed count, stdout)."""
+    timeout = tscale(timeout)
     spec_path = os.path.join(SPEC, "trace", spec + ".tla")
     cfg = cfg or os.path.join(SPEC, "trace", spec + ".cfg")
     md = os.path.join(wd, f"md_{tag}")
@@ -224,6 +239,7 @@ def tlc_check(module_path, cfg_path, wd, tag, workers=8, timeout=900, xmx="8g", 
               extra=None, coverage=True, env_extra=None):
     """Model check (or simulate) a specification. Returns dict with ok, out, states, distinct,
     coverage {action: count}, replay lines (JSON values printed as <<"REPLAY", json>>)."""
+    timeout = tscale(timeout)
     md = os.path.join(wd, f"md_{tag}")
     env = dict(os.environ)
     env.pop("JAVA_TOOL_OPTIONS", None)
@@ -402,6 +418,7 @@ class Verdict:
     def __init__(self, prop, tier):
         self.prop = prop
         self.tier = tier
+        TIER["tier"] = tier
         self.t0 = time.time()
         self.violations = []   # (record, replay payload)
         self.known_hits = {}
